@@ -488,9 +488,13 @@ def runReady1 (rec : Rec) : Ready → M Unit
   | .callback _ => sigQuit
 
 /-- the loop takes the first ready callback and runs it -/
-def settleStep (r : Ready) : M Unit := do
-  dequeue
-  runReady1 (exec 100000) r
+def settleStep : M Unit := do
+  let s ← getS
+  match s.ready with
+  | [] => pure ()
+  | r :: _ =>
+    dequeue
+    runReady1 (exec 100000) r
 
 /-- run the event loop until its ready queue is empty (`settle`) -/
 def settle : Nat → M Unit
@@ -498,10 +502,8 @@ def settle : Nat → M Unit
   | fuel + 1 => do
     let s ← getS
     if s.blocked then pure () else
-    match s.ready with
-    | [] => pure ()
-    | r :: _ => do
-      settleStep r
+    if s.ready.isEmpty then pure () else do
+      settleStep
       settle fuel
 
 end Circus.Core
